@@ -918,7 +918,10 @@ def gen(rs: int, index: int, tier: str) -> Dict[str, Any]:
     env = {"tz": [renv.choice(["UTC", "Europe/Berlin", "America/Los_Angeles", "Asia/Kolkata"]),
                   renv.choice(["UTC", "Europe/Berlin", "Pacific/Kiritimati", "Asia/Kolkata"])],
            "relative_paths": renv.random() < 0.3}
-    return {"base": base, "prelude": prelude, "pert": pert, "env": env, "norefresh": norefresh, "entries": [e1, e2], "orders": [r.randint(0, 10**6), r.randint(0, 10**6)],
+    # the client saves the database object, goes on and saves it again: the object has been written before
+    prewrite = S.rng("prewrite").random() < 0.25
+    return {"base": base, "prelude": prelude, "pert": pert, "env": env, "norefresh": norefresh, "prewrite": prewrite,
+            "entries": [e1, e2], "orders": [r.randint(0, 10**6), r.randint(0, 10**6)],
             "index_pos": [r.choice(["first", "last", "middle", "keep"]), r.choice(["first", "last", "middle", "keep"])],
             "clock": [1_700_000_000.0 + r.randint(0, 10**7), jump[0], jump[1]]}
 
@@ -1185,6 +1188,12 @@ def execute(trace: Dict[str, Any]) -> Dict[str, Any]:
                         outcome = "base-failed"
                         violations.append({"oracle": "C11.write", "sig": {"cls": "-", "field": "-", "vclass": "base", **exc_sig(e)},
                                            "detail": {"base": trace["base"], "msg": str(e)[:300], "stage": "second load of the base"}})
+                if outcome == "ok" and trace.get("prewrite"):
+                    try:
+                        odxtools.write_pdx_file(os.path.join(wd, "p0.pdx"), dbw)
+                        faults["database_object_written_before"] = 1
+                    except Exception as e:  # noqa: BLE001 - judged by the write below
+                        log.ev("sim", "prewrite-failed", exc_sig(e))
                 try:
                     if outcome == "ok":
                         odxtools.write_pdx_file(p1, dbw)
@@ -1199,6 +1208,17 @@ def execute(trace: Dict[str, Any]) -> Dict[str, Any]:
                         outcome = "not-well-formed"
                         violations.append({"oracle": "C11.O1-wellformed", "sig": {"cls": cls, "field": field, "vclass": vclass},
                                            "detail": {"member": bad[0], "error": bad[1], "pert": pert}})
+                if outcome == "ok" and base_archive(trace["base"]) is not None:
+                    # the auxiliary files of the written archive are those of the archive the database came from
+                    want, got = archive_aux(base_archive(trace["base"])), archive_aux(p1)
+                    if want != got:
+                        missing = sorted(set(want) - set(got))
+                        changed = sorted(k for k in set(got) & set(want) if got[k] != want[k])
+                        violations.append({"oracle": "C11.O6-auxiliary-files",
+                                           "sig": {"what": "written-missing" if missing else "written-content"},
+                                           "detail": {"stage": "written archive vs archive of origin", "missing": missing[:5],
+                                                      "changed": changed[:5], "extra": sorted(set(got) - set(want))[:5],
+                                                      "written_before": bool(trace.get("prewrite"))}})
                 if outcome == "ok":
                     p1r = os.path.join(wd, "p1r.pdx")
                     names = repack(p1, p1r, trace["orders"][0], trace["index_pos"][0])
